@@ -6,6 +6,7 @@ import GoIpa.Gen.FrConsts
 import GoIpa.Model.FrLimbs
 import GoIpa.Model.Field
 import GoIpa.Model.FrInverse
+import GoIpa.Model.FrSqrt
 namespace GoIpa.Tie.FrConsts
 open GoIpa GoIpa.Limbs
 
@@ -41,5 +42,8 @@ limbs, limb indices and the shift 63 -/
 theorem inverse_constants :
     limbsVal Gen.inverseInitU = R ∧ limbsVal Gen.inverseInitS = FrInv.rSquare ∧ FrInv.rSquare = 2 ^ 512 % R ∧
     (∀ x ∈ Gen.inverseLiterals, x ∈ Gen.qElement ∨ x ∈ [0, 1, 2, 3, 63]) := by decide +kernel
+
+/-- the hard-coded `g` of `Sqrt` is the Montgomery form of `7^s` (`s` the odd part of `r − 1`) -/
+theorem sqrt_g : limbsVal Gen.sqrtG = FrSqrt.gConst.val * FrInv.W256 % R := by decide +kernel
 
 end GoIpa.Tie.FrConsts
